@@ -263,6 +263,25 @@ def accept(ctx, cases, logs):
     return run_lines([ctx.model_bin, "accept"], lines, NCPU, 600, "model")
 
 
+def held_late_arbiter(case):
+    """index of an arbiter created (n:f) between two system stops while the system thread is held, if the case has one"""
+    toks = case.split()[2:]
+    if "d:90" not in toks or "d:91" not in toks:
+        return None
+    a, b = toks.index("d:90"), toks.index("d:91")
+    ss = [i for i, t in enumerate(toks) if t.startswith("ss:") and a < i < b]
+    if len(ss) < 2:
+        return None
+    late = [i for i, t in enumerate(toks) if t.startswith("n:") and ss[0] < i < ss[1]]
+    if not late:
+        return None
+    k = sum(1 for t in toks[:late[0]] if t.startswith("n:"))
+    # not if the script stops or drops that arbiter itself
+    if any(t.startswith(("st:%d:" % k, "d:%d" % k)) for t in toks):
+        return None
+    return k
+
+
 def classify(case, log_, verdict):
     """which property a rejection belongs to, and a stable class key"""
     toks = case.split()[2:]
@@ -283,6 +302,8 @@ def classify(case, log_, verdict):
         return {"C09", "C10"}, "join-hang-after-self-stop"
     if code == 5:
         return {"C10"}, "await-log"
+    if code == 6:
+        return {"C09"}, "arbiter-created-between-two-stops-not-stopped"
     return {"C09", "C10"}, "verdict-" + verdict.replace(":", "")
 
 
@@ -675,6 +696,10 @@ def busy_system_cases(rng, n):
         code = rng.choice(CODES)
         ops.append("ss:%d:%s" % (code, rng.choice("ft")))
         if rng.random() < 0.4:
+            # an arbiter created between two stops (all three commands wait in the system's queue): the second stop reaches it
+            if rng.random() < 0.6:
+                ops.append("n:f")
+                tot += 1
             ops.append("ss:%d:f" % rng.choice([c for c in CODES if c != code]))
         ops.append("d:91")
         ops.append("wr")
@@ -724,6 +749,19 @@ def check(ctx, pid):
     logs = run_impl(ctx, cases)
     t_impl = time.time() - t0
     ver = accept(ctx, cases, logs)
+    # One thing the model is too coarse for (it lets the System end between any two commands of its queue): while the system
+    # thread is held (d:90 .. d:91) the stop, the registration of an arbiter created after it and a second stop wait in the queue
+    # together, and the controller handles all of them in the poll that follows the release — the second stop reaches that
+    # arbiter, its join must not hang.  Checked here on the log (the family `busy_system_cases` generates the pattern).
+    for i, (c, l, v) in enumerate(zip(cases, logs, ver)):
+        if v == "ok" and l.startswith("ret="):
+            k = held_late_arbiter(c)
+            if k is not None:
+                toks = c.split()[2:]
+                res = dict(f.split("=", 1) for f in l.split(";")).get("ops", "")
+                for n, t in enumerate(toks):
+                    if t == "j:%d" % k and n < len(res) and res[n] == "h":
+                        ver[i] = "bad:6"
     rejected = [(c, l, v) for c, l, v in zip(cases, logs, ver) if v != "ok"]
     mine, foreign = {}, 0
     for c, l, v in rejected:
